@@ -162,6 +162,8 @@ fn run<const N: usize>(job: &Value) {
                 let _ = std::fs::remove_file(&path);
                 r
             }
+            "to_xml" => json!({"text": tgt.to_xml().unwrap()}),
+            "to_dot" => json!({"text": tgt.to_dot()}),
             "clone" => {
                 other = Some(tgt.clone());
                 json!({"clone": snap_to(&other.as_ref().unwrap().verif_snapshot())})
